@@ -51,4 +51,29 @@ def run {I O R : Type} (bal : I → O) (res : I → O → R) : State I O → Lis
 /-- A calculation: supply the inputs, balance, read the result. -/
 def calcOps {I : Type} (i : I) : List (Op I) := [.setInputs i, .balance, .result]
 
+/-! ### The length of the series of an electric balance: decided by inputs alone -/
+
+/-- A storage unit or PTI/PTO as the length rule sees it. The stored power series is an INPUT only when the unit is given a power at
+some step; for a unit that shares the load at every step it is what the balance before wrote there. -/
+structure UnitLens where
+  modeLen : Nat
+  sharesAlways : Bool
+  powerLen : Nat
+  deriving Repr, DecidableEq
+
+/-- `ElectricPowerSystem.validate_inputs_before_power_balance_calculation`: the number of points of the balance. The consumers' sum
+decides unless it is a single value; then the other series do: status of the sources, sharing modes of the storage units and
+PTI/PTOs, their power where it is given (D89), positions of the breakers. -/
+def numberPoints (consumers : Nat) (srcStatus : List Nat) (units : List UnitLens) (breakers : List Nat) : Nat :=
+  if consumers ≠ 1 then consumers
+  else ((consumers :: srcStatus) ++ units.map (·.modeLen) ++ (units.filter (!·.sharesAlways)).map (·.powerLen) ++ breakers).foldl max 0
+
+/-- As found: the stored power series of every unit counted, also where it was the result of the balance before. -/
+def numberPointsLegacy (consumers : Nat) (srcStatus : List Nat) (units : List UnitLens) (breakers : List Nat) : Nat :=
+  if consumers ≠ 1 then consumers
+  else ((consumers :: srcStatus) ++ units.map (·.modeLen) ++ units.map (·.powerLen) ++ breakers).foldl max 0
+
+/-- What an earlier balance of `k` points leaves in the units that share the load at every step. -/
+def afterBalance (k : Nat) (u : UnitLens) : UnitLens := if u.sharesAlways then { u with powerLen := k } else u
+
 end Feems.History
